@@ -26,6 +26,7 @@ _COPIES = [
     (r"^C01\.kernel\.TorchConstantValueLayer", "C03"),
     (r"^C01\.kernel\.TorchEmbeddingLayer", "C06"),
     (r"^C01\.address_book\.", "C02"),
+    (r"^C12\.build_circuit\.", "C16"),
     (r"^C02\.fold_settings\.TorchIndexParameter", "C04"),
     (r"^C02\.rebuild_from_config\.TorchIndexParameter", "C04"),
 ]
